@@ -517,7 +517,14 @@ struct Child {
 			for (auto &a : al) {
 				if (bad()) break;
 				lookup_name(a.alias, -1, model_find(a.full), "alias", "builtin-alias");
-				if (!bad()) lookup_name(a.alias, (int) strlen(a.alias), model_find(a.alias), "alias-with-length", "builtin-alias");
+				if (!bad()) {
+					// the property does not say whether short names work in the length-limited form (today they do not,
+					// so "log: sym" is refused by mpt_alias_typeid): either answer is fine, anything else is a wrong id
+					const mpt::named_traits *nt = mpt::mpt_named_traits(a.alias, (int) strlen(a.alias));
+					count("lookups_by_name");
+					if (!nt) count("short_name_unresolved_in_length_limited_form(not flagged)");
+					else if (nt->type != model_find(a.full)) fail("mpt_named_traits|builtin-alias|alias-with-length|wrong-id", fmt("mpt_named_traits(\"%s\", %d) resolves to id 0x%lx", a.alias, (int) strlen(a.alias), (long) nt->type));
+				}
 			}
 			static const char *unknown[] = { "gamma", "abc", "alphabets", "fill.m.", "metatypes", "loggers", "x" };
 			for (const char *u : unknown) { if (bad()) break; lookup_name(u, -1, model_find(u), "full-name", "unregistered-name"); if (!bad()) lookup_name(u, (int) strlen(u), model_find(u), "exact-length", "unregistered-name"); }
